@@ -48,6 +48,8 @@ mut("linear_static_scratch", ["C16"], "linear's neighbour buffer hoisted to stat
 mut("morton_static_index_cache", ["C16"], "one-entry static cache in morton::calculate_index", [(T + "morton.hpp", "    COVFIE_DEVICE static std::size_t\n    calculate_index(typename contravariant_input_t::vector_t c)\n    {", "    COVFIE_DEVICE static std::size_t\n    calculate_index(typename contravariant_input_t::vector_t c)\n    {\n        static typename contravariant_input_t::vector_t last_c;\n        static std::size_t last_idx = 0;\n        static bool have = false;\n        if (have) {\n            bool same = true;\n            for (std::size_t q = 0; q < contravariant_input_t::dimensions; ++q) same = same && last_c[q] == c[q];\n            if (same) return last_idx;\n        }\n        last_c = c;\n        have = true;\n        last_idx = calculate_index_uncached(c);\n        return last_idx;\n    }\n\n    COVFIE_DEVICE static std::size_t\n    calculate_index_uncached(typename contravariant_input_t::vector_t c)\n    {", 1)])
 mut("pack_for_depth2_swapped", ["C17", "C13"], "make_parameter_pack_for (depth 2) forwards (a1, a0)", [(C + "parameter_pack.hpp", "    return make_parameter_pack(\n        std::forward<typename utility::nth_backend<typename F::backend_t, 0>::\n                         type::configuration_t>(a0),\n        std::forward<typename utility::nth_backend<typename F::backend_t, 1>::\n                         type::configuration_t>(a1)\n    );\n}\n\ntemplate <\n    typename F,\n    std::enable_if_t<\n        utility::backend_depth<typename F::backend_t>::value == 3,", "    return make_parameter_pack(\n        std::forward<typename utility::nth_backend<typename F::backend_t, 1>::\n                         type::configuration_t>(a1),\n        std::forward<typename utility::nth_backend<typename F::backend_t, 0>::\n                         type::configuration_t>(a0)\n    );\n}\n\ntemplate <\n    typename F,\n    std::enable_if_t<\n        utility::backend_depth<typename F::backend_t>::value == 3,", 1)])
 
+mut("field_rejects_trailing_data", ["C06"], "field(std::istream&) refuses a stream that continues behind the field's footer (a second field, a container file)", [(C + "field.hpp", "        utility::read_io_footer(fs, IO_MAGIC_HEADER);\n    }\n\n    field & operator=(const field &) = default;", "        utility::read_io_footer(fs, IO_MAGIC_HEADER);\n\n        if (fs.peek() != std::istream::traits_type::eof()) {\n            throw std::runtime_error(\"Trailing data after covfie vector field.\");\n        }\n    }\n\n    field & operator=(const field &) = default;", 1)])
+
 REVERTS = {"revert_D1": (["C12", "C15"], "revert of fix: array copy assignment"), "revert_D2": (["C08"], "revert of fix: read_binary stream check"),
            "revert_D3": (["C01", "C14", "C05", "C13"], "revert of fix: hilbert index"), "revert_D4": (["C05", "C13"], "revert of fix: morton this_t"),
            "revert_D5": (["C06", "C13"], "revert of fix: constant read_binary"), "revert_D6": (["C06", "C13"], "revert of fix: cast/dereference write_binary"),
